@@ -42,7 +42,7 @@ func (self *BinaryConv) do(ctx context.Context, src []byte, desc *proto.TypeDesc
 	// when desc is Singular/Map/List
 	if desc.Type() != proto.MESSAGE {
 		wtyp := proto.Kind2Wire[protoreflect.Kind(desc.Type())]
-		return self.doRecurse(ctx, desc, out, resp, &p, wtyp)
+		return self.doRecurse(ctx, desc, out, resp, &p, wtyp, len(src))
 	}
 
 	// when desc is Message
@@ -79,7 +79,7 @@ func (self *BinaryConv) do(ctx context.Context, src []byte, desc *proto.TypeDesc
 		*out = json.EncodeString(*out, fd.JSONName())
 		*out = json.EncodeObjectColon(*out)
 		// Parse ProtoData and encode into json format
-		err := self.doRecurse(ctx, fd.Type(), out, resp, &p, typeId)
+		err := self.doRecurse(ctx, fd.Type(), out, resp, &p, typeId, len(src))
 		if err != nil {
 			return unwrapError(fmt.Sprintf("converting field %s of MESSAGE %s failed", fd.Name(), fd.Kind()), err)
 		}
@@ -98,12 +98,13 @@ func checkFinite(v float64) error {
 }
 
 // Parse ProtoData into JSONData by DescriptorType
-func (self *BinaryConv) doRecurse(ctx context.Context, fd *proto.TypeDescriptor, out *[]byte, resp http.ResponseSetter, p *binary.BinaryProtocol, typeId proto.WireType) error {
+// end is the offset in p.Buf where the enclosing message ends: a repeated or map field cannot continue beyond it
+func (self *BinaryConv) doRecurse(ctx context.Context, fd *proto.TypeDescriptor, out *[]byte, resp http.ResponseSetter, p *binary.BinaryProtocol, typeId proto.WireType, end int) error {
 	switch {
 	case (*fd).IsList():
-		return self.unmarshalList(ctx, resp, p, typeId, out, fd)
+		return self.unmarshalList(ctx, resp, p, typeId, out, fd, end)
 	case (*fd).IsMap():
-		return self.unmarshalMap(ctx, resp, p, typeId, out, fd)
+		return self.unmarshalMap(ctx, resp, p, typeId, out, fd, end)
 	default:
 		return self.unmarshalSingular(ctx, resp, p, out, fd)
 	}
@@ -233,6 +234,9 @@ func (self *BinaryConv) unmarshalSingular(ctx context.Context, resp http.Respons
 		message := (*fd).Message()
 		comma := false
 		start := p.Read
+		if l < 0 || l > len(p.Buf)-start {
+			return wrapError(meta.ErrRead, "message length exceeds the buffer", nil)
+		}
 
 		*out = json.EncodeObjectBegin(*out)
 
@@ -263,7 +267,7 @@ func (self *BinaryConv) unmarshalSingular(ctx context.Context, resp http.Respons
 			*out = json.EncodeObjectColon(*out)
 
 			// parse MessageFieldValue recursive
-			err := self.doRecurse(ctx, fd.Type(), out, resp, p, typeId)
+			err := self.doRecurse(ctx, fd.Type(), out, resp, p, typeId, start+l)
 			if err != nil {
 				return unwrapError(fmt.Sprintf("converting field %s of MESSAGE %s failed", fd.Name(), fd.Kind()), err)
 			}
@@ -278,7 +282,7 @@ func (self *BinaryConv) unmarshalSingular(ctx context.Context, resp http.Respons
 // parse ListType
 // Packed List format: [Tag][Length][Value Value Value Value Value]....
 // Unpacked List format: [Tag][Length][Value] [Tag][Length][Value]....
-func (self *BinaryConv) unmarshalList(ctx context.Context, resp http.ResponseSetter, p *binary.BinaryProtocol, typeId proto.WireType, out *[]byte, fd *proto.TypeDescriptor) (err error) {
+func (self *BinaryConv) unmarshalList(ctx context.Context, resp http.ResponseSetter, p *binary.BinaryProtocol, typeId proto.WireType, out *[]byte, fd *proto.TypeDescriptor, end int) (err error) {
 	*out = json.EncodeArrayBegin(*out)
 
 	fileldNumber := fd.BaseId()
@@ -305,7 +309,8 @@ func (self *BinaryConv) unmarshalList(ctx context.Context, resp http.ResponseSet
 		if err := self.unmarshalSingular(ctx, resp, p, out, fd.Elem()); err != nil {
 			return unwrapError("unmarshal List element error", err)
 		}
-		for p.Read < len(p.Buf) {
+		// the next element, if any, belongs to the same message: do not look at tags behind its end
+		for p.Read < end {
 			elementFieldNumber, _, tagLen, err := p.ConsumeTagWithoutMove()
 
 			if err != nil {
@@ -330,7 +335,7 @@ func (self *BinaryConv) unmarshalList(ctx context.Context, resp http.ResponseSet
 // parse MapType
 // Map bytes format: [Pairtag][Pairlength][keyTag(L)V][valueTag(L)V] [Pairtag][Pairlength][T(L)V][T(L)V]...
 // Pairtag = MapFieldnumber << 3 | wiretype:BytesType
-func (self *BinaryConv) unmarshalMap(ctx context.Context, resp http.ResponseSetter, p *binary.BinaryProtocol, typeId proto.WireType, out *[]byte, fd *proto.TypeDescriptor) (err error) {
+func (self *BinaryConv) unmarshalMap(ctx context.Context, resp http.ResponseSetter, p *binary.BinaryProtocol, typeId proto.WireType, out *[]byte, fd *proto.TypeDescriptor, end int) (err error) {
 	fileldNumber := (*fd).BaseId()
 	_, lengthErr := p.ReadLength()
 	if lengthErr != nil {
@@ -367,8 +372,8 @@ func (self *BinaryConv) unmarshalMap(ctx context.Context, resp http.ResponseSett
 		return wrapError(meta.ErrRead, "parse MapValue Value error", err)
 	}
 
-	// parse the remaining k-v pairs
-	for p.Read < len(p.Buf) {
+	// parse the remaining k-v pairs of the same message
+	for p.Read < end {
 		pairNumber, _, tagLen, err := p.ConsumeTagWithoutMove()
 		if err != nil {
 			return wrapError(meta.ErrRead, "consume list child Tag error", err)
